@@ -174,12 +174,27 @@ theorem C04_refusal_surfaces (retries : Nat) (cb : Outcome) (script : List Reply
   · rename_i hh; simp [hh] at hne
   · rfl
 
-/-- what counts as an acknowledgement on the wire, for every result code and every status: the status is not
-    of the rollback family, and the result code is Success or the status says the commit is decided -/
+/-- what counts as an acknowledgement on the wire, for every result code and every status: the status says the
+    commit is decided - and that only. In particular no status of the rollback family, and none of Begin, UnKnown,
+    Finished (with which the coordinator answers for a transaction it no longer knows: committed, or rolled back
+    after a timeout) -/
 theorem C04_acknowledged_iff (rc : RC) (st : Nat) :
-    acknowledged rc st = true ↔ rollbackFamily st = false ∧ (rc = .success ∨ commitFamily st = true) := by
-  unfold acknowledged
-  cases hr : rollbackFamily st <;> cases hc : commitFamily st <;> cases rc <;> simp
+    acknowledged rc st = true ↔ commitFamily st = true := by
+  unfold acknowledged; rfl
+
+theorem C04_acknowledged_not_rolled_back (rc : RC) (st : Nat) (h : acknowledged rc st = true) :
+    rollbackFamily st = false ∧ st ≠ 0 ∧ st ≠ 1 ∧ st ≠ 15 := by
+  unfold acknowledged commitFamily at h
+  unfold rollbackFamily
+  simp only [List.mem_cons, List.mem_nil_iff, or_false, decide_eq_true_eq] at h
+  refine ⟨?_, ?_, ?_, ?_⟩
+  · simp only [List.mem_cons, List.mem_nil_iff, or_false, decide_eq_false_iff_not]; omega
+  all_goals omega
+
+/-- before the repair a commit answered "Success, Finished" - the coordinator's answer for a transaction it has
+    rolled back after a timeout and forgotten - was an acknowledgement -/
+theorem C04_before_fix_finished_is_acknowledged :
+    acknowledgedBeforeFix .success 15 = true ∧ acknowledged .success 15 = false := by decide
 
 /-- the two families are disjoint, so the order of the two tests in `commitRefusal` does not matter -/
 theorem C04_families_disjoint (st : Nat) : ¬ (rollbackFamily st = true ∧ commitFamily st = true) := by
